@@ -538,7 +538,15 @@ func (x *X) strSub(s, lo, hi string) string {
 		x.sc.Assert("(forall ((s Real) (a Int) (b Int) (i Int)) (! (=> (and (<= 0 a) (<= a b) (<= b (gs.len s)) (<= 0 i) (< i (- b a))) (= (gs.at (gs.sub s a b) i) (gs.at s (+ a i)))) :pattern ((gs.at (gs.sub s a b) i))))")
 		x.sc.Assert("(forall ((s Real)) (! (= (gs.sub s 0 (gs.len s)) s) :pattern ((gs.sub s 0 (gs.len s)))))")
 	}
-	return x.define("sub", SStr, fmt.Sprintf("(gs.sub %s %s %s)", s, lo, hi))
+	if lo == "0" && hi == "(gs.len "+s+")" {
+		return s
+	}
+	r := x.define("sub", SStr, fmt.Sprintf("(gs.sub %s %s %s)", s, lo, hi))
+	x.assume(fmt.Sprintf("(>= %s 0.0)", r))
+	x.assume(fmt.Sprintf("(=> (and (<= 0 %s) (<= %s %s) (<= %s (gs.len %s))) (= (gs.len %s) (- %s %s)))", lo, lo, hi, hi, s, r, hi, lo))
+	x.assume(fmt.Sprintf("(=> (and (= 0 %s) (= %s (gs.len %s))) (= %s %s))", lo, hi, s, r, s))
+	x.assume(fmt.Sprintf("(=> (and (<= 0 %s) (< %s %s) (<= %s (gs.len %s))) (= (gs.at %s 0) (gs.at %s %s)))", lo, lo, hi, hi, s, r, s, lo))
+	return r
 }
 
 func (x *X) makeInterface(v Val, t types.Type) Val {
